@@ -14,8 +14,8 @@ from verif.stubs.untraced import fast_jinja
 
 PROPERTY = "C08"
 B = h.bounds(
-    quick=dict(SLEN=3, NPATH=12, SEG=2, TS=36, NSUB=3, UKAA=3, UKB=1, NALPHA=5),
-    thorough=dict(SLEN=4, NPATH=16, SEG=3, TS=144, NSUB=6, UKAA=3, UKB=2, NALPHA=7),
+    quick=dict(SLEN=3, NPATH=12, SEG=3, SEG3FREE=0, TS=36, NSUB=3, UKAA=3, UKB=1, NALPHA=5),
+    thorough=dict(SLEN=4, NPATH=16, SEG=3, SEG3FREE=1, TS=144, NSUB=6, UKAA=3, UKB=2, NALPHA=7),
 )
 PATHS = ["a", "b", "a.a", "a.b", "b.a", "a.a.a", "a.c", "c", "a.b.a", "", "a.a.b", "c.a",
          "a.a.a.a", "b.a.a", "a.a.a.b", "a.b.c.a"]
@@ -358,6 +358,7 @@ def check_format_render(ka: int, kaa: int, kab: int, kb: int, n: int,
     pre: 0 <= ka <= 3 and 0 <= kaa <= 4 and kaa != 3 and 0 <= kab <= 1 and 0 <= kb <= 3 and kb != 2
     pre: 0 <= n <= B.SEG
     pre: 0 <= s0 <= 6 and 0 <= s1 <= 6 and 0 <= s2 <= 6
+    pre: n <= 2 or B.SEG3FREE == 1 or (ka >= 2 and kaa == 2 and kab == 1 and kb == 1)
     pre: h.in_shard(s0 + 7 * (ka % 2))
     post: _
     """
@@ -704,7 +705,7 @@ CONDITIONS = [
                 "check_update_context(3, 3, 1, 1, 1, 2, True, 0, False, False, True, True)",
                 "check_update_context(3, 1, 1, 1, 1, 4, False, 0, False, False, True, True)",
                 "check_update_context(0, 0, 0, 0, 1, 4, False, 0, False, True, True, False)"]),
-    dict(fn="check_update_context_args", budget=(80, 300),
+    dict(fn="check_update_context_args", budget=(180, 400),
          smoke=["check_update_context_args(0, 4, False, 1, True, False, True)",
                 "check_update_context_args(1, 2, True, 2, False, False, True)"]),
     dict(fn="check_delete_context", shards=(4, 16), budget=(70, 900),
